@@ -22,6 +22,8 @@ CHECKS = {
          "for every enumerated system and every iteration cap m the returned iterate is compared per column with the independently computed minimum of ||b - A x|| over x0 + K_m, plus monotonicity in m, convergence at full dimension, the cap on products with A and non-mutation of inputs"),
  "C06": ("invertible operator terms (every kind with/without an inverse rule, PSD/Unitary declarations, depth<=2 nestings) x 8 algorithm settings x 4 right-hand sides x {inv@b, solve, dense inverse, left product, transpose, adjoint}; Auto switch at 10^6 entries",
          "every enumerated (invertible term, algorithm) pair is solved through inv and solve for 4 right-hand sides and judged by the relative residual against the reference matrix; inv(A) is densified and, on direct paths, transposed / left-multiplied and compared with the reference inverse"),
+ "C07": ("invertible operator terms (|det| on both sides of 1, both signs / four phases, both permutation parities, scalar operators of several sizes, depth<=2) x 6 (log algorithm, trace algorithm) pairs; determinant of the reference matrix (exact Bareiss cross-check)",
+         "for every enumerated (non-singular term, algorithm pair) slogdet's sign and log-magnitude and logdet are compared with the determinant of the exact reference matrix"),
 }
 PENDING = {}
 props = [json.loads(l) for l in open(os.path.join(ROOT, "properties.jsonl"))]
